@@ -170,9 +170,35 @@ func (c *ColAuto) Infer(t ColumnType) error {
 }
 
 var (
-	_ Column    = &ColAuto{}
-	_ Inferable = &ColAuto{}
+	_ Column       = &ColAuto{}
+	_ Inferable    = &ColAuto{}
+	_ StateEncoder = &ColAuto{}
+	_ StateDecoder = &ColAuto{}
+	_ Preparable   = &ColAuto{}
 )
+
+// DecodeState ensures StateDecoder propagation to inferred column.
+func (c ColAuto) DecodeState(r *Reader) error {
+	if s, ok := c.Data.(StateDecoder); ok {
+		return s.DecodeState(r)
+	}
+	return nil
+}
+
+// EncodeState ensures StateEncoder propagation to inferred column.
+func (c ColAuto) EncodeState(b *Buffer) {
+	if s, ok := c.Data.(StateEncoder); ok {
+		s.EncodeState(b)
+	}
+}
+
+// Prepare ensures Preparable propagation to inferred column.
+func (c ColAuto) Prepare() error {
+	if s, ok := c.Data.(Preparable); ok {
+		return s.Prepare()
+	}
+	return nil
+}
 
 func (c ColAuto) Type() ColumnType {
 	return c.DataType
